@@ -275,7 +275,7 @@ func (e *vsEnv) upload(c *vsClient, a *vsAttempt) {
 			if a.fault.Stick {
 				u.VerifWriteFileField("bogus", "extra.txt", "BenchmarkBogus 1 1 ns/op\n") // a field of another name that looks like a file
 			} else {
-				vsWriteField(u, "bogus", "1")
+				vsWriteField(u, []string{"bogus", "Commit", "COMMIT", "File"}[a.fault.Pos%4], "1")
 			}
 		}
 		if a.fault.Kind == "abort" && a.fault.File == i && a.fault.Pos == 0 {
@@ -868,6 +868,7 @@ func (e *vsEnv) genAttempt(faultsOn bool, force *vsFault) *vsAttempt {
 		case "badfield":
 			a.fault.File = T.Intn(nf+1, "badfield-at")
 			a.fault.Stick = T.Bool("badfield-with-filename")
+			a.fault.Pos = T.Intn(4, "badfield-name")
 		case "abort":
 			if T.Bool("abort-mid-file") {
 				a.fault.Pos = 1 + T.Intn(len(a.files[a.fault.File].text)+1, "abort-pos")
